@@ -39,6 +39,10 @@ Step ==
         /\ Dm(x[1]) - (hr - lr) \in {0, 1} /\ Dn(x[1]) - (hc - lc) \in {0, 1, 2, 62, 63, 64}
         /\ Submatrix2(x[1], x[2], lr, lc, hr, hc) /\ lastw' = x[1]
         /\ hist' = Append(hist, Rec("submatrix", [d |-> x[1], a |-> x[2], lr |-> lr, lc |-> lc, hr |-> hr, hc |-> hc]))
+  \/ \E x \in H2, up \in BOOLEAN : ExtractTri2(x[1], x[2], up) /\ lastw' = x[1]
+        /\ hist' = Append(hist, Rec(IF up THEN "extract_u" ELSE "extract_l", [d |-> x[1], a |-> x[2]]))
+  \/ \E x \in H2, i \in {0, 2}, j \in 0 .. 1 : ((x[1] = x[2] /\ i # j) \/ (x[1] # x[2] /\ j = 0 /\ Dn(x[1]) - Dn(x[2]) \in {0, 1, 2, 62, 63, 64})) /\ CopyRow2(x[1], i, x[2], j) /\ lastw' = x[1]
+        /\ hist' = Append(hist, Rec("copy_row", [d |-> x[1], a |-> x[2], i |-> i, j |-> j]))
   \/ \E x \in H3 : Concat3(x[1], x[2], x[3]) /\ lastw' = x[1] /\ hist' = Append(hist, Rec("concat", [d |-> x[1], a |-> x[2], b |-> x[3]]))
   \/ \E x \in H3 : Stack3(x[1], x[2], x[3]) /\ lastw' = x[1] /\ hist' = Append(hist, Rec("stack", [d |-> x[1], a |-> x[2], b |-> x[3]]))
   \/ \E h \in Handles, v \in 0 .. 1 : SetUi(h, v) /\ lastw' = h /\ hist' = Append(hist, Rec("set_ui", [h |-> h, v |-> v]))
